@@ -409,9 +409,9 @@ def do_replay(path):
     with open(path) as f:
         j = json.load(f)
     if j.get("kind") == "bounded":
-        bm = importlib.import_module(j["module"])
         if sys.path[0] != runner.REPO:
             sys.path.insert(0, runner.REPO)
+        bm = importlib.import_module(j["module"])
         ok = bm.replay(j)
         print("replay:", "VIOLATION reproduced" if not ok else "holds now")
         return 1 if not ok else 0
